@@ -88,6 +88,14 @@ func init() {
 			if eq.IsFalse() {
 				continue
 			}
+			if eq.IsTrue() {
+				// syntactically the same argument bytes: hand out the very same term (the fresh
+				// variable above is still drawn, so the numbering of later calls is unchanged). One
+				// term instead of two equated variables keeps e.g. `hash % total` hash-consed.
+				m.ghost["murmur"] = append(prev[:len(prev):len(prev)], murmurCall{arg, p.res})
+				m.stats.Assumes["murmur3.Sum64 is uninterpreted: fresh 64-bit result per call, equal for equal argument bytes"]++
+				return p.res
+			}
 			m.addPC(m.tt.Or(m.tt.Not(eq), m.tt.Eq(r, p.res)))
 		}
 		m.ghost["murmur"] = append(prev[:len(prev):len(prev)], murmurCall{arg, r})
